@@ -271,6 +271,9 @@ def import_expr(pos, path, i):
         return ['let m%d = module {} => { let q = %s; };' % (i, imp), 'let i%d = m%d{};' % (i, i)], "i%d.q" % i
     if pos == "moduleOut":
         return ['let m%d = module {} => (%s) { let z = 0; };' % (i, imp), 'let i%d = m%d{};' % (i, i)], "i%d" % i
+    if pos == "conAnn":
+        # the annotation is an example: the imported file's name (a string) admits any string; nothing is re-exported
+        return ['let i%d :: ((%s).name) = "c";' % (i, imp)], None
     if pos == "fmtExpr":
         # inside a format string only text gets out: the imported file's name stands for its tree (FMT_LEAF)
         return ['let i%d = "@{(%s).name}" %% 1;' % (i, imp.replace('"', '\\"'))], "{tree = {name = i%d, kids = [], incs = [], via = \"fmt\"}}" % i
@@ -293,6 +296,8 @@ def include_expr(pos, path, i):
         return ['let d%d = {m = %s};' % (i, inc)], "d%d.m" % i
     if pos == "moduleBody":
         return ['let n%d = module {} => { let q = %s; };' % (i, inc), 'let d%d = n%d{};' % (i, i)], "d%d.q" % i
+    if pos == "conAnn":
+        return ['let d%d :: (%s) = "c";' % (i, inc)], None
     if pos == "fmtExpr":
         return ['let d%d = "@{%s}" %% 1;' % (i, inc.replace('"', '\\"'))], "d%d" % i
     raise C.ToolError("unknown include position %r" % pos)
@@ -363,9 +368,9 @@ def expected_tree(lay, f, upto=None, seen=()):
             break
         if s["k"] == "imp" and s["pos"] == "fmtExpr":
             kids.append(fmt_leaf(lay, s["tgt"]))
-        elif s["k"] == "imp" and s["pos"] != "failMsg":
+        elif s["k"] == "imp" and s["pos"] not in ("failMsg", "conAnn"):
             kids.append(expected_tree(lay, s["tgt"], None, seen + (f,)) if s["tgt"] not in seen + (f,) else None)
-        elif s["k"] == "inc" and s["pos"] != "failMsg":
+        elif s["k"] == "inc" and s["pos"] not in ("failMsg", "conAnn"):
             incs.append("DATA:" + lay.ident(s["tgt"]))
     t = {"name": lay.ident(f), "kids": kids, "incs": incs}
     if upto is not None:
